@@ -163,7 +163,9 @@ def stop_rule_records(emd, seed, count):
     TOLS = [(1, 20, .05), (1, 10, .1), (1, 4, .25), (1, 2, .5), (1, 5, .2)]
     for it in range(count):
         tp, tq, tol = TOLS[rng.randint(len(TOLS))]
-        # Rilling: envelopes mean+1 / mean-1 (amplitude exactly 1), |mean| in {0, 1/32, 1/16, 3/4} around sd1=.05, sd2=.5
+        # Rilling: envelopes mean+1 / mean-1 (amplitude exactly 1), so E = |mean| exactly.  Every third instance uses dyadic
+        # thresholds sd1 = 1/16, sd2 = 3/4 and puts samples EXACTLY ON them: sd1 / sd2 are "maximum thresholds" - a sample
+        # equal to the threshold does not exceed it.
         N = int(rng.choice([4, 10, 20, 40, 60, 100]))
         if it % 3 == 0 and (N * tp) % tq == 0:
             n1 = N * tp // tq + int(rng.randint(-1, 2))            # at / next to the tolerated fraction
@@ -171,12 +173,19 @@ def stop_rule_records(emd, seed, count):
             n1 = int(rng.randint(0, N + 1))
         n1 = min(max(n1, 0), N)
         n2 = int(rng.randint(0, n1 + 1)) if rng.rand() < .3 else 0
-        a = np.array([.75] * n2 + [.0625] * (n1 - n2) + [0.03125, 0.0][it % 2:][:1] * (N - n1))
+        if it % 3 == 1:
+            sd1, sd2 = .0625, .75
+            below = [0.03125, 0.0625][int(rng.randint(2))]          # 0.0625 == sd1: not above it
+            mid = [0.125, 0.75][int(rng.randint(2))]                # 0.75 == sd2: above sd1, not above sd2
+            a = np.array([1.0] * n2 + [mid] * (n1 - n2) + [below] * (N - n1))
+        else:
+            sd1, sd2 = .05, .5
+            a = np.array([.75] * n2 + [.0625] * (n1 - n2) + [0.03125, 0.0][it % 2:][:1] * (N - n1))
         a = a * rng.choice([-1, 1], size=N)
         rng.shuffle(a)
-        out = core.guarded(S.rilling_stop, a + 1, a - 1, sd1=.05, sd2=.5, tol=tol, niters=3)
+        out = core.guarded(S.rilling_stop, a + 1, a - 1, sd1=sd1, sd2=sd2, tol=tol, niters=3)
         recs.append({'rule': 'rilling', 'N': N, 'n1': n1, 'n2': n2, 'tp': tp, 'tq': tq, 'raised': int(isinstance(out, str)),
-                     'fired': -1 if isinstance(out, str) else int(bool(out[0]))})
+                     'fired': -1 if isinstance(out, str) else int(bool(out[0])), 'on_threshold': int(it % 3 == 1)})
         # SD: integer-valued iterates, dyadic thresholds
         tp2, tq2, thr = [(1, 8, .125), (1, 4, .25), (1, 2, .5), (1, 16, .0625)][rng.randint(4)]
         n = int(rng.choice([2, 4, 8]))
